@@ -98,14 +98,16 @@ def cases(draw):
             exact = True
             pats = [{'ex': 'ZQ'}]
             silent = False
-        calls.append({'mode': mode, 'op': 'expect_exact' if (exact or late) else draw(st.sampled_from(['expect', 'expect_list'])),
+        # ... or with a limit far beyond those 50 ms
+        sync_T = draw(st.sampled_from([None, 0.9])) if none_timeout else None
+        calls.append({'sync_T': sync_T, 'mode': mode, 'op': 'expect_exact' if (exact or late) else draw(st.sampled_from(['expect', 'expect_list'])),
                       'pats': pats, 'w': (draw(st.sampled_from([None, -1, 5, 20])) if none_timeout else draw(e1.windows())),
                       'pre': pre, 'during': during, 'eof': eof, 'silent': silent,
                       'cut_chars': cut, 'late': late, 'none_timeout': none_timeout, 'poll': poll})
         if eof:
             break
     return {'enc': 'utf-8' if text_mode else None, 'maxread': draw(st.sampled_from([2000, 2000, 3])), 'calls': calls,
-            'kind': draw(st.sampled_from(['pipe', 'pipe', 'pty']))}
+            'kind': draw(st.sampled_from(['pipe', 'pipe', 'pty'])), 'use_poll': draw(st.booleans())}
 
 
 class ChunkLog(object):
@@ -176,6 +178,8 @@ def check_case(case, col=None):
     kw = {'maxread': case['maxread'], 'timeout': 5}
     if text_mode:
         kw['encoding'] = 'utf-8'
+    if case.get('use_poll'):
+        kw['use_poll'] = True
     sp = fdpexpect.fdspawn(r, **kw)
     sp.logfile_read = log
     results = []
@@ -235,7 +239,9 @@ def check_case(case, col=None):
                     tm = threading.Timer(0.05, lambda: w_open[0] and put(b'ZQ'))
                     tm.start()
                     try:
-                        ret = method(nat, timeout=None, searchwindowsize=c['w'])
+                        if c.get('sync_T'):
+                            T = c['sync_T']
+                        ret = method(nat, timeout=c.get('sync_T'), searchwindowsize=c['w'])
                     finally:
                         tm.join()
                 elif c['mode'] == 'sync':
@@ -353,6 +359,15 @@ def check_case(case, col=None):
                 # the writer closed its end within a few loop turns of the start of this call, far inside the timeout
                 raise Violation('eof-not-reported:' + c['mode'], '%s ended in TIMEOUT although the peer closed the stream during '
                                 'the call (chunks %r)' % (where, chunks))
+            if outcome_to and c.get('sync_T'):
+                # the text was due 50 ms into a blocking call with a limit of 0.9 s
+                if timings[i][0] < c['sync_T'] - 0.05:
+                    raise Violation('sync-early-timeout', '%s: blocking call with timeout %.1f gave up after %.3f s, before '
+                                    'the text written 0.05 s into the call arrived' % (where, c['sync_T'], timings[i][0]))
+                if col is not None:
+                    col.label('discarded:writer-thread-late')
+                    col.case(case, False)
+                return
             if outcome_to or outcome_eof:
                 # nothing that was written before the call ended may still sit undelivered in the pipe
                 got_all = (''.join if text_mode else b''.join)([ch for j in range(i + 1) for ch in log.chunks.get(j, [])])
